@@ -7,7 +7,7 @@
 // VF-ASSUME: IEEE-754 binary64 arithmetic with round-to-nearest in the library (x86-64 SSE2) and an 80-bit long double in the harness;; the backward-error theorems of Higham ch. 8-9 (valid for any pivoting sequence and any loop ordering);; g++ __int128 arithmetic;; the engine's fork/alarm supervisor
 // VF-TECHNIQUE: exhaustive enumeration + exact reference + derived error bounds
 // VF-BUDGET_QUICK: 150
-// VF-BUDGET_THOROUGH: 1500
+// VF-BUDGET_THOROUGH: 1800
 #include "vf.hpp"
 #include <Bpp/Numeric/Matrix/LUDecomposition.h>
 #include <Bpp/Numeric/Matrix/MatrixTools.h>
@@ -106,23 +106,24 @@ struct Fact {
 };
 
 // checks: pivot vector is a permutation whose sign is the stored pivot sign; L unit lower, U upper; |P.A - L.U| <= gamma_n |L||U|
-static Fact factor(vf::Case& c, const std::string& part, const std::string& in, const Mat& M, LUDecomposition<double>& lu) {
+typedef std::function<std::string()> Lazy;   // input descriptions are only built when a violation is reported
+static Fact factor(vf::Case& c, const std::string& part, const Lazy& in, const Mat& M, LUDecomposition<double>& lu) {
   Fact F; int n = F.n = M.n;
   c.site("LUDecomposition::getL"); const RowMatrix<double>& L = lu.getL();
   c.site("LUDecomposition::getU"); const RowMatrix<double>& U = lu.getU();
   c.site("LUDecomposition::getPivot"); F.piv = lu.getPivot();
   int storedSign = lu.pivsign;   // read-only access to the private sign used by det()
   if ((int)L.getNumberOfRows() != n || (int)L.getNumberOfColumns() != n || (int)U.getNumberOfRows() != n || (int)U.getNumberOfColumns() != n || (int)F.piv.size() != n) {
-    c.fail(part + "|factor-dimensions", in); F.ok = false; return F;
+    c.fail(part + "|factor-dimensions", in()); F.ok = false; return F;
   }
   std::vector<int> seen(n, 0); bool isPerm = true;
   for (int i = 0; i < n; ++i) { if (F.piv[i] >= (size_t)n || seen[F.piv[i]]++) isPerm = false; if (F.piv[i] != (size_t)i) F.exchanged = true; }
-  if (!isPerm) { c.fail(part + "|pivot-not-a-permutation", in + " piv=" + vf::vstr(F.piv)); F.ok = false; return F; }
+  if (!isPerm) { c.fail(part + "|pivot-not-a-permutation", in() + " piv=" + vf::vstr(F.piv)); F.ok = false; return F; }
   { // sign of the permutation = (-1)^(n - #cycles)
     std::vector<int> vis(n, 0); int cycles = 0;
     for (int i = 0; i < n; ++i) if (!vis[i]) { ++cycles; for (int j = i; !vis[j]; j = (int)F.piv[j]) vis[j] = 1; }
     int sgn = ((n - cycles) % 2) ? -1 : 1;
-    if (sgn != storedSign) c.fail(part + "|pivot-sign", in + " piv=" + vf::vstr(F.piv) + " sign of permutation=" + str(sgn) + " stored pivsign=" + str(storedSign));
+    if (sgn != storedSign) c.fail(part + "|pivot-sign", in() + " piv=" + vf::vstr(F.piv) + " sign of permutation=" + str(sgn) + " stored pivsign=" + str(storedSign));
   }
   F.L.resize((size_t)n * n); F.U.resize((size_t)n * n);
   bool shape = true, finite = true;
@@ -134,8 +135,8 @@ static Fact factor(vf::Case& c, const std::string& part, const std::string& in, 
     if (i < j && l != 0.0) shape = false;
     if (i > j && u != 0.0) shape = false;
   }
-  if (!shape) c.fail(part + "|L-unit-lower-U-upper", in + " L=" + mstr(n, F.L) + " U=" + mstr(n, F.U));
-  if (!finite) { c.fail(part + "|factor-not-finite", in + " L=" + mstr(n, F.L) + " U=" + mstr(n, F.U)); F.ok = false; return F; }
+  if (!shape) c.fail(part + "|L-unit-lower-U-upper", in() + " L=" + mstr(n, F.L) + " U=" + mstr(n, F.U));
+  if (!finite) { c.fail(part + "|factor-not-finite", in() + " L=" + mstr(n, F.L) + " U=" + mstr(n, F.U)); F.ok = false; return F; }
   F.minPiv = std::fabs(F.U[0]); for (int i = 1; i < n; ++i) F.minPiv = std::min(F.minPiv, std::fabs(F.U[(size_t)i * n + i]));
   F.PA.resize((size_t)n * n); F.G.resize((size_t)n * n);
   bool within = true; std::string worst;
@@ -148,7 +149,7 @@ static Fact factor(vf::Case& c, const std::string& part, const std::string& in, 
     LD bound = gam(n) * g + gamL(n + 1) * (fabsl(pa) + g);
     if (!(fabsl(pa - s) <= bound)) { within = false; if (worst.empty()) worst = "entry (" + str(i) + "," + str(j) + "): |P.A-L.U|=" + vf::num((double)fabsl(pa - s)) + " bound=" + vf::num((double)bound); }
   }
-  if (!within) c.fail(part + "|PA=LU-bound", in + " piv=" + vf::vstr(F.piv) + " L=" + mstr(n, F.L) + " U=" + mstr(n, F.U) + " " + worst);
+  if (!within) c.fail(part + "|PA=LU-bound", in() + " piv=" + vf::vstr(F.piv) + " L=" + mstr(n, F.L) + " U=" + mstr(n, F.U) + " " + worst);
   return F;
 }
 
@@ -173,9 +174,9 @@ static LL x0(int i, int j) { return (LL)((i * 2 + j * 3) % 5) - 2 + (i == j ? 3 
 struct Opt { bool cube = false; bool heights = false; bool product = false; };
 
 // the complete judgement of one matrix in one storage-class assignment with k right-hand-side columns
-static void judge(vf::Case& c, const std::string& part, const Mat& M, int cA, int cB, int cX, int k, bool heights) {
+static void judge(vf::Case& c, const std::string& part, const Mat& M, int cA, int cB, int cX, int k, bool heights, bool transposeToo = true) {
   int n = M.n;
-  std::string in = std::string(CLS[cA]) + " A=" + (M.desc.empty() ? mstr(n, M.a) : M.desc + " " + mstr(n, M.a));
+  Lazy in = [&]() { return std::string(CLS[cA]) + " A=" + (M.desc.empty() ? mstr(n, M.a) : M.desc + " " + mstr(n, M.a)); };
   auto A = mk(cA, n, n); fill(*A, M);
   c.site("LUDecomposition::LUDecomposition");
   LUDecomposition<double> lu(*A);
@@ -189,18 +190,18 @@ static void judge(vf::Case& c, const std::string& part, const Mat& M, int cA, in
   LD bd = detBound(F, M.det);
   c.site("LUDecomposition::det"); double d1 = lu.det();
   c.site("MatrixTools::det"); double d2 = MatrixTools::det(*A);
-  if (!(fabsl((LD)d1 - M.det) <= bd)) c.fail(part + "|det-differs-from-exact", in + " LUDecomposition::det=" + vf::num(d1) + " exact=" + vf::num((double)M.det) + " bound=" + vf::num((double)bd));
-  if (!(d1 == d2)) c.fail(part + "|MatrixTools::det-differs-from-LU::det", in + " " + vf::num(d2) + " vs " + vf::num(d1));
-  {
+  if (!(fabsl((LD)d1 - M.det) <= bd)) c.fail(part + "|det-differs-from-exact", in() + " LUDecomposition::det=" + vf::num(d1) + " exact=" + vf::num((double)M.det) + " bound=" + vf::num((double)bd));
+  if (!(d1 == d2)) c.fail(part + "|MatrixTools::det-differs-from-LU::det", in() + " " + vf::num(d2) + " vs " + vf::num(d1));
+  if (transposeToo) {
     auto At = mk(cA, n, n); fill(*At, M, true);
     Mat Mt = M; for (int i = 0; i < n; ++i) for (int j = 0; j < n; ++j) Mt.a[(size_t)i * n + j] = M.at(j, i);
     c.site("LUDecomposition::LUDecomposition");
     LUDecomposition<double> lut(*At);
-    Fact Ft = factor(c, part + ":transpose", in + " (transposed)", Mt, lut);
+    Fact Ft = factor(c, part + ":transpose", [&]() { return in() + " (transposed)"; }, Mt, lut);
     if (Ft.ok) {
       c.site("MatrixTools::det"); double dt = MatrixTools::det(*At);
       LD bt = detBound(Ft, M.det);
-      if (!(fabsl((LD)dt - M.det) <= bt)) c.fail(part + "|det-transpose", in + " det(A^T)=" + vf::num(dt) + " exact det(A)=" + vf::num((double)M.det) + " bound=" + vf::num((double)bt));
+      if (!(fabsl((LD)dt - M.det) <= bt)) c.fail(part + "|det-transpose", in() + " det(A^T)=" + vf::num(dt) + " exact det(A)=" + vf::num((double)M.det) + " bound=" + vf::num((double)bt));
     }
   }
 
@@ -208,14 +209,14 @@ static void judge(vf::Case& c, const std::string& part, const Mat& M, int cA, in
   auto B = mk(cB, n, k);
   for (int i = 0; i < n; ++i) for (int j = 0; j < k; ++j) { LD s = 0; for (int l = 0; l < n; ++l) s += (LD)M.at(i, l) * (LD)x0(l, j); (*B)((size_t)i, (size_t)j) = (double)s; }
   auto resid = [&](const std::string& what, const Matrix<double>& Bm, const Matrix<double>& X, int kk) {
-    if ((int)X.getNumberOfRows() != n || (int)X.getNumberOfColumns() != kk) { c.fail(part + "|" + what + "-result-dimensions", in + " X is " + str(X.getNumberOfRows()) + "x" + str(X.getNumberOfColumns())); return; }
+    if ((int)X.getNumberOfRows() != n || (int)X.getNumberOfColumns() != kk) { c.fail(part + "|" + what + "-result-dimensions", in() + " X is " + str(X.getNumberOfRows()) + "x" + str(X.getNumberOfColumns())); return; }
     for (int i = 0; i < n; ++i) for (int j = 0; j < kk; ++j) {
       // Higham Thm 9.4: (P.A + dA) x^ = P.b with |dA| <= gamma_3n |L^||U^|, hence |P.b - P.A.x^| <= gamma_3n (|L^||U^||x^|)
       LD pb = Bm(F.piv[i], (size_t)j), s = 0, ax = 0, gx = 0;
       for (int l = 0; l < n; ++l) { LD xv = X((size_t)l, (size_t)j); s += F.PA[(size_t)i * n + l] * xv; ax += fabsl(F.PA[(size_t)i * n + l] * xv); gx += F.G[(size_t)i * n + l] * fabsl(xv); }
       LD bound = gam(3 * n) * gx * (1 + gamL(n + 1)) + gamL(n + 2) * (fabsl(pb) + ax);
       if (!(fabsl(pb - s) <= bound)) {
-        c.fail(part + "|" + what + "-residual-bound", in + " " + CLS[cB] + "/" + CLS[cX] + " k=" + str(kk) + " row " + str(i) + " col " + str(j) + ": |B-A.X|=" + vf::num((double)fabsl(pb - s)) + " bound=" + vf::num((double)bound) + " x=" + vf::num(X((size_t)i, (size_t)j)));
+        c.fail(part + "|" + what + "-residual-bound", in() + " " + CLS[cB] + "/" + CLS[cX] + " k=" + str(kk) + " row " + str(i) + " col " + str(j) + ": |B-A.X|=" + vf::num((double)fabsl(pb - s)) + " bound=" + vf::num((double)bound) + " x=" + vf::num(X((size_t)i, (size_t)j)));
         return;
       }
     }
@@ -227,16 +228,16 @@ static void judge(vf::Case& c, const std::string& part, const Mat& M, int cA, in
     c.site("LUDecomposition::solve");
     try { ind = lu.solve(*B, *X); }
     catch (ZeroDivisionException&) { threw = true; }
-    catch (Exception& e) { c.fail(part + "|solve-unexpected-exception", in + " what=" + e.what()); return; }
-    if (threw && !small) c.fail(part + "|solve-zero-division-without-small-pivot", in + " min|U_ii|=" + vf::num(F.minPiv));
-    if (!threw && small) c.fail(part + "|solve-small-pivot-not-reported", in + " min|U_ii|=" + vf::num(F.minPiv) + " returned " + vf::num(ind));
+    catch (Exception& e) { c.fail(part + "|solve-unexpected-exception", in() + " what=" + e.what()); return; }
+    if (threw && !small) c.fail(part + "|solve-zero-division-without-small-pivot", in() + " min|U_ii|=" + vf::num(F.minPiv));
+    if (!threw && small) c.fail(part + "|solve-small-pivot-not-reported", in() + " min|U_ii|=" + vf::num(F.minPiv) + " returned " + vf::num(ind));
     if (threw) c.tag("solve:ZeroDivisionException");
     else {
       c.tag("solve:returned");
-      if (!(ind == F.minPiv)) c.fail(part + "|solve-indicator", in + " returned " + vf::num(ind) + " min|U_ii|=" + vf::num(F.minPiv));
+      if (!(ind == F.minPiv)) c.fail(part + "|solve-indicator", in() + " returned " + vf::num(ind) + " min|U_ii|=" + vf::num(F.minPiv));
       resid("solve", *Bcopy, *X, k);
     }
-    for (int i = 0; i < n; ++i) for (int j = 0; j < k; ++j) if ((*Bcopy)((size_t)i, (size_t)j) != (*B)((size_t)i, (size_t)j)) { c.fail(part + "|solve-modified-rhs", in); i = n; break; }
+    for (int i = 0; i < n; ++i) for (int j = 0; j < k; ++j) if ((*Bcopy)((size_t)i, (size_t)j) != (*B)((size_t)i, (size_t)j)) { c.fail(part + "|solve-modified-rhs", in()); i = n; break; }
   }
   // --- inverse ---
   {
@@ -246,13 +247,13 @@ static void judge(vf::Case& c, const std::string& part, const Mat& M, int cA, in
     c.site("MatrixTools::inv");
     try { ind = MatrixTools::inv(*A, *O); }
     catch (ZeroDivisionException&) { threw = true; }
-    catch (Exception& e) { c.fail(part + "|inv-unexpected-exception", in + " what=" + e.what()); return; }
-    if (threw && !small) c.fail(part + "|inv-zero-division-without-small-pivot", in + " min|U_ii|=" + vf::num(F.minPiv));
-    if (!threw && small) c.fail(part + "|inv-small-pivot-not-reported", in + " min|U_ii|=" + vf::num(F.minPiv) + " returned " + vf::num(ind));
+    catch (Exception& e) { c.fail(part + "|inv-unexpected-exception", in() + " what=" + e.what()); return; }
+    if (threw && !small) c.fail(part + "|inv-zero-division-without-small-pivot", in() + " min|U_ii|=" + vf::num(F.minPiv));
+    if (!threw && small) c.fail(part + "|inv-small-pivot-not-reported", in() + " min|U_ii|=" + vf::num(F.minPiv) + " returned " + vf::num(ind));
     if (threw) c.tag("inv:ZeroDivisionException");
     else {
       c.tag("inv:returned");
-      if (!(ind == F.minPiv)) c.fail(part + "|inv-indicator", in + " returned " + vf::num(ind) + " min|U_ii|=" + vf::num(F.minPiv));
+      if (!(ind == F.minPiv)) c.fail(part + "|inv-indicator", in() + " returned " + vf::num(ind) + " min|U_ii|=" + vf::num(F.minPiv));
       resid("inv", I, *O, n);
     }
   }
@@ -264,7 +265,7 @@ static void judge(vf::Case& c, const std::string& part, const Mat& M, int cA, in
       if ((int)Bw->getNumberOfRows() != h) continue;   // (not representable in this class)
       auto X = mk(cX, 0, 0);
       c.site("LUDecomposition::solve(wrong height)");
-      try { lu.solve(*Bw, *X); c.fail(part + "|wrong-height-accepted", in + " " + CLS[cB] + " B with " + str(h) + " rows, " + str(k) + " columns"); }
+      try { lu.solve(*Bw, *X); c.fail(part + "|wrong-height-accepted", in() + " " + CLS[cB] + " B with " + str(h) + " rows, " + str(k) + " columns"); }
       catch (Exception&) { c.tag("refused-wrong-height"); }
     }
   }
@@ -289,7 +290,8 @@ static void lattice(vf::Runner& R, int n, const std::string& spec) {
     Mat M = intMat(n, v, "");
     // storage classes and column count rotate with the index (the full cube is the space lu:cube)
     uint64_t h = idx / 7 + idx;
-    judge(c, "lu", M, (int)(h % 3), (int)((h / 3) % 3), (int)((h / 9) % 3), 1 + (int)((h / 27) % 4), false);
+    // a full lattice is closed under transposition and exact det(A^T) = exact det(A): det(A^T) is judged when the transposed member is visited
+    judge(c, "lu", M, (int)(h % 3), (int)((h / 3) % 3), (int)((h / 9) % 3), 1 + (int)((h / 27) % 4), false, false);
     if (idx % 50021 == 17) c.sample("A=" + mstr(n, M.a) + " exact det=" + vf::num((double)M.det));
   }, 5.0);
 }
@@ -322,8 +324,8 @@ static void pairs(vf::Runner& R, int n, const std::string& spec, uint64_t nB) {
     std::vector<I128> wa(a.begin(), a.end()), wb(b.begin(), b.end());
     I128 da = bareiss(n, wa), db = bareiss(n, wb);
     Mat P = intMat(n, p, "");
-    std::string in = "A=" + mstr(n, std::vector<double>(a.begin(), a.end())) + " B=" + mstr(n, std::vector<double>(b.begin(), b.end()));
-    if ((I128)P.det != da * db) { c.fail("HARNESS|bareiss-not-multiplicative", in); return; }
+    Lazy in = [&]() { return "A=" + mstr(n, std::vector<double>(a.begin(), a.end())) + " B=" + mstr(n, std::vector<double>(b.begin(), b.end())); };
+    if ((I128)P.det != da * db) { c.fail("HARNESS|bareiss-not-multiplicative", in()); return; }
     int cls = (int)(idx % 3);
     auto Pm = mk(cls, n, n); fill(*Pm, P);
     c.site("LUDecomposition::LUDecomposition");
@@ -334,7 +336,7 @@ static void pairs(vf::Runner& R, int n, const std::string& spec, uint64_t nB) {
     c.site("MatrixTools::det");
     double d = MatrixTools::det(*Pm);
     LD want = (LD)da * (LD)db, bd = detBound(F, want);
-    if (!(fabsl((LD)d - want) <= bd)) c.fail("det-product|det(AB)-differs-from-det(A)det(B)", in + " det(AB)=" + vf::num(d) + " exact det(A)det(B)=" + vf::num((double)want) + " bound=" + vf::num((double)bd));
+    if (!(fabsl((LD)d - want) <= bd)) c.fail("det-product|det(AB)-differs-from-det(A)det(B)", in() + " det(AB)=" + vf::num(d) + " exact det(A)det(B)=" + vf::num((double)want) + " bound=" + vf::num((double)bd));
     c.tag(want == 0 ? "product-singular" : "product-regular");
   }, 5.0);
 }
@@ -526,6 +528,7 @@ int main(int argc, char** argv) {
   R.note("singularity is judged exactly as documented: ZeroDivisionException <=> min_i|U_ii| < NumConstants::SMALL() (1e-6) on the factors the object reports; a returned X must satisfy the component-wise backward-error bound |P.B - P.A.X| <= gamma_3n |L||U||X| (Higham Thm 9.4), which contains the size (3n), the unit round-off and, through |L||U||X|, growth and conditioning");
   R.note("LUDecomposition::solve(std::vector,std::vector) is dead template code that does not compile when instantiated (uses Array1D members dim1()/clean()); it cannot be called and is not part of the check");
   R.note("RowMatrix cannot represent a 0-row right-hand side with k columns (reports 0x0): heights are judged on the reported dimensions");
+  R.note("det(A)=det(A^T): in the full lattices (closed under transposition) every member is compared with its own exact determinant, which equals that of its transpose; in the cube, pair and structured spaces the transposed matrix is factorised explicitly");
   R.note("thorough tier runs the optimised (unsanitised) variant because of the 43M-matrix 4x4 lattice; every family and the smaller lattices run sanitised in the quick tier");
   return R.finish();
 }
